@@ -56,10 +56,11 @@ namespace vw
         int mesh_holes = 0;
         int share_grid = 0;  // reference worlds (twin / prefix / fresh) are built on the main world's grid object
         int reuse_input = 0; // the caller keeps ONE elevation array object and overwrites it before each update
+        int mesh_extra = 0;  // trimesh: points appended after the lattice that no triangle references (isolated nodes)
         std::size_t size() const
         {
             if (kind == G_TRIMESH)
-                return mesh_nx * mesh_ny;
+                return mesh_nx * mesh_ny + static_cast<std::size_t>(mesh_extra);
             if (kind == G_PROFILE)
                 return cols;
             return rows * cols;
@@ -143,7 +144,7 @@ namespace vw
         const GridSpec& g = w.grid;
         o << "x grid " << grid_kind_name(g.kind) << " " << g.rows << " " << g.cols << " " << hexd(g.dy) << " " << hexd(g.dx) << " "
           << g.bs[0] << " " << g.bs[1] << " " << g.bs[2] << " " << g.bs[3] << " " << g.mesh_nx << " " << g.mesh_ny << " " << g.mesh_seed
-          << " " << g.mesh_holes << " " << g.share_grid << " " << g.reuse_input << "\n";
+          << " " << g.mesh_holes << " " << g.share_grid << " " << g.reuse_input << " " << g.mesh_extra << "\n";
         for (const auto& ov : g.overrides)
             o << "x status " << ov.first << " " << ov.second << "\n";
         for (const OperatorSpec& s : w.ops)
@@ -196,6 +197,7 @@ namespace vw
                 g.mesh_holes = atoi(t[13].c_str());
                 g.share_grid = t.size() > 14 ? atoi(t[14].c_str()) : 0;
                 g.reuse_input = t.size() > 15 ? atoi(t[15].c_str()) : 0;
+                g.mesh_extra = t.size() > 16 ? atoi(t[16].c_str()) : 0;
                 have_grid = true;
             }
             else if (t[0] == "status" && t.size() >= 3)
@@ -307,7 +309,8 @@ namespace vw
     {
         std::string s = std::string(grid_kind_name(w.grid.kind));
         if (w.grid.kind == G_TRIMESH)
-            s += " " + std::to_string(w.grid.mesh_nx) + "x" + std::to_string(w.grid.mesh_ny) + " holes " + std::to_string(w.grid.mesh_holes);
+            s += " " + std::to_string(w.grid.mesh_nx) + "x" + std::to_string(w.grid.mesh_ny) + " holes " + std::to_string(w.grid.mesh_holes)
+                 + " isolated " + std::to_string(w.grid.mesh_extra);
         else
             s += " " + std::to_string(w.grid.rows) + "x" + std::to_string(w.grid.cols) + " borders " + std::to_string(w.grid.bs[0])
                  + std::to_string(w.grid.bs[1]) + std::to_string(w.grid.bs[2]) + std::to_string(w.grid.bs[3]);
